@@ -386,6 +386,11 @@ def run_mutators(shard, rec, rng, hist_len):
                         if stored_dirty(h):
                             rec.violation("C05/H1-crlf-stored-despite-refusal", f"{name}({v!r}); stored {stored_dirty(h)!r}", case, monitor="H1")
                             break
+                    except IndexError:
+                        if name in ("setitem_idx", "setitem_slice") and len(h) == 0:
+                            break  # index assignment on an emptied header list: ordinary list semantics, history ends here
+                        rec.violation("C05/header-mutator-raises-IndexError", f"{name}({v!r}) on {list(h)!r}", case)
+                        break
                     except Exception as e:
                         rec.violation(f"C05/header-mutator-raises-{type(e).__name__}", f"{name}({v!r}): {e!r}", case)
                         break
